@@ -6,7 +6,7 @@ import Sgz.Proofs.Writer
 `hash_object.update` (plane set after plane set, `planes_to_read` planes each, real crosslines and samples only).  For
 every cube / section size and every blockshape it equals the real samples in trace order — so the digest is the SHA-1 of
 the source samples (A3: SHA-1 is a streaming function of the concatenation), independent of rate, blockshape and route;
-two sources that differ in any sample feed different byte strings (`samples_nodup`: every sample is fed exactly once).
+two sources that differ in any sample feed different byte strings (`feed_each_sample_once`).
 -/
 namespace Sgz.Props.C20
 open Sgz
@@ -38,6 +38,43 @@ theorem feed_position (g : Geo) (hg : g.Valid) (i x z : Nat) (hi : i < g.n0) (hx
   rw [e, List.getElem?_map, List.getElem?_range h2]
   have e3 : (i * (g.n1 * g.n2) + (x * g.n2 + z)) % g.n2 = z := by rw [← e]; exact mod_mixed _ _ _ hz
   simp [div_mixed _ _ _ h1, mod_mixed _ _ _ h1, div_mixed _ _ _ hz, e3]
+
+/-- every position of the trace-order stream is the position of exactly one sample coordinate -/
+theorem pos_decomp (n0 n1 n2 p : Nat) (h : p < n0 * (n1 * n2)) :
+    ∃ i x z, i < n0 ∧ x < n1 ∧ z < n2 ∧ p = (i * n1 + x) * n2 + z := by
+  have h2 : 0 < n2 := by
+    rcases Nat.eq_zero_or_pos n2 with h0 | h0
+    · subst h0; simp at h
+    · exact h0
+  have h1 : 0 < n1 := by
+    rcases Nat.eq_zero_or_pos n1 with h0 | h0
+    · subst h0; simp at h
+    · exact h0
+  refine ⟨p / n2 / n1, p / n2 % n1, p % n2, ?_, Nat.mod_lt _ h1, Nat.mod_lt _ h2, ?_⟩
+  · rw [Nat.div_lt_iff_lt_mul h1, Nat.div_lt_iff_lt_mul h2, Nat.mul_assoc]; exact h
+  · rw [Nat.div_add_mod', Nat.div_add_mod']
+
+/-- **every sample is fed exactly once**: no source coordinate occurs at two positions of the feed, and every position
+holds a real coordinate — so two sources that differ in any sample feed different byte strings to the digest, and no
+sample (in particular no padding replica) is fed twice -/
+theorem feed_each_sample_once (g : Geo) (hg : g.Valid) (p p' : Nat) (c : Nat × Nat × Nat)
+    (h : (Writer.hashFeed g)[p]? = some c) (h' : (Writer.hashFeed g)[p']? = some c) :
+    p = p' ∧ c.1 < g.n0 ∧ c.2.1 < g.n1 ∧ c.2.2 < g.n2 := by
+  have hl := feed_length g hg
+  have hp : p < g.n0 * (g.n1 * g.n2) := by
+    rw [← hl]; exact (List.getElem?_eq_some_iff.mp h).1
+  have hp' : p' < g.n0 * (g.n1 * g.n2) := by
+    rw [← hl]; exact (List.getElem?_eq_some_iff.mp h').1
+  obtain ⟨i, x, z, hi, hx, hz, e⟩ := pos_decomp _ _ _ _ hp
+  obtain ⟨i', x', z', hi', hx', hz', e'⟩ := pos_decomp _ _ _ _ hp'
+  rw [e, feed_position g hg i x z hi hx hz] at h
+  rw [e', feed_position g hg i' x' z' hi' hx' hz'] at h'
+  have hc : (i, x, z) = (i', x', z') := Option.some.inj (h.trans h'.symm)
+  simp only [Prod.mk.injEq] at hc
+  obtain ⟨rfl, rfl, rfl⟩ := hc
+  have hcc : c = (i, x, z) := (Option.some.inj h).symm
+  subst hcc
+  exact ⟨by rw [e, e'], hi, hx, hz⟩
 
 example : (⟨5, 6, 9, 4, 4, 256, 64⟩ : Geo).Valid ∧ (⟨1, 9, 70, 1, 16, 64, 64⟩ : Geo).Valid2d := by decide
 example : (Writer.hashFeed ⟨5, 3, 2, 4, 4, 256, 64⟩).length = 30 := by decide +kernel
